@@ -29,4 +29,4 @@ build_e1() {
 # every instrumented package of the tars tree (tools/ and protocol/res excluded)
 TARS_PKGS="tars tars/model tars/protocol tars/protocol/push tars/registry tars/registry/tars tars/selector tars/selector/consistenthash tars/selector/modhash tars/selector/random tars/selector/roundrobin tars/transport tars/util/current tars/util/gpool tars/util/grace tars/util/gtime tars/util/rogger tars/util/rtimer tars/util/sync tars/util/tools tars/util/trace"
 # instrumenter arguments for checks that run the whole (instrumented) tars tree
-TARS_E1_ARGS="-osfiles tars/panic.go -adddir $VERIF_ROOT/harness/tars=tars -adddir $VERIF_ROOT/harness/rtimer=tars/util/rtimer -adddir $VERIF_ROOT/harness/transport=tars/transport -adddir $VERIF_ROOT/harness/rogger=tars/util/rogger $TARS_PKGS"
+TARS_E1_ARGS="-osfiles tars/panic.go -adddir $VERIF_ROOT/harness/tars=tars -adddir $VERIF_ROOT/harness/rtimer=tars/util/rtimer -adddir $VERIF_ROOT/harness/transport=tars/transport -adddir $VERIF_ROOT/harness/roundrobin=tars/selector/roundrobin -adddir $VERIF_ROOT/harness/rogger=tars/util/rogger $TARS_PKGS"
